@@ -201,7 +201,10 @@ func (e *Engine) symRangeNext(st *State, fr *Frame, in *ssa.Next, it *rangeIter)
 	}
 	// havoc what the loop assigns
 	arrSort := canonSort(fmt.Sprintf("(Array %s %s)", sr.keySort.Name, sr.valSort.Name))
-	cur := e.fresh(st, "it", arrSort)
+	cur := sr.m0
+	if loopWritesMapOfType(in.Block(), obj.Typ) {
+		cur = e.fresh(st, "it", arrSort)
+	}
 	visited := e.fresh(st, "visited", canonSort(fmt.Sprintf("(Array %s Bool)", sr.keySort.Name)))
 	_ = e.havocLoopTargets(st, fr, in.Block())
 	nobj := obj.clone()
@@ -888,6 +891,35 @@ func usesTrace(n *rNode, ct *Contract) bool {
 	for _, a := range n.Args {
 		if usesTrace(a, ct) {
 			return true
+		}
+	}
+	return false
+}
+
+// loopWritesMapOfType: does the loop with this header update or delete entries of a map of the given type?
+// (Only then does the map-range rule have to forget the content of the ranged map.)
+func loopWritesMapOfType(header *ssa.BasicBlock, mt *types.Map) bool {
+	for b := range loopBlocks(header) {
+		for _, ins := range b.Instrs {
+			switch x := ins.(type) {
+			case *ssa.MapUpdate:
+				if types.Identical(x.Map.Type().Underlying(), mt) {
+					return true
+				}
+			case *ssa.Call:
+				if bi, ok := x.Call.Value.(*ssa.Builtin); ok && bi.Name() == "delete" {
+					if types.Identical(x.Call.Args[0].Type().Underlying(), mt) {
+						return true
+					}
+				} else if !ok {
+					// a call that receives a map of this type may modify it
+					for _, a := range x.Call.Args {
+						if types.Identical(a.Type().Underlying(), mt) {
+							return true
+						}
+					}
+				}
+			}
 		}
 	}
 	return false
